@@ -395,7 +395,9 @@ struct Driver {
     if (!r2.ok()) {
       bool regen_hit = false;
       for (auto& x : r.spawns) if (w.sc.stmts[x.stmt].regen && (x.killed || !x.reap_seq)) regen_hit = true;
-      if (regen_hit && intr && r2.res.err.find("loading 'build.ninja'") != std::string::npos) {
+      bool manifest_removed = false;
+      for (const Ev& e : r.res.trace) if (e.kind == Ev::kFsRemove && e.s == "/w/build.ninja") manifest_removed = true;
+      if (regen_hit && r.interrupted && manifest_removed && r2.res.err.find("loading 'build.ninja'") != std::string::npos) {
         w.Report("C07", "regen_manifest_deleted", "the interrupted ninja deleted build.ninja, which its manifest generator had just rewritten; the next invocation cannot start: " + r2.res.err.substr(0, 120));
         return;
       }
